@@ -76,6 +76,11 @@ def file_traj(nf, na, cell, seed, scale=1.0, time="arange"):
             A = np.tile([70.0, 80.0, 100.0], (nf, 1))
         if cell in ("vary", "ortho-vary"):
             L = L + (np.arange(nf) % 16)[:, None] * 0.25
+        if cell in ("ortho-then-tric", "tric-then-ortho"):
+            # the shape of the cell changes along the trajectory (a box sheared, or relaxed to rectangular, during the run)
+            for f in range(nf):
+                if (f >= max(1, nf // 2)) == (cell == "ortho-then-tric"):
+                    A[f] = [70.0, 80.0, 100.0]
         if cell == "tiny":
             # a cell so small that the file as a whole exceeds 1000 atoms / nm^3 (the documented threshold below which load_pdb
             # believes a CRYST1 record) while a few of its atoms alone do not
